@@ -98,7 +98,7 @@ theorem decompress_facts (r : Regs) (inp out : Array UInt8) (outPos budget flags
               simp [stHasMoreOutput, stNeedsMoreInput, stFailedCannotMakeProgress] at this
             · rw [h3.1] at hs; simp [stDone, stHasMoreOutput] at hs
             · rw [h3.1] at hs; simp [stFailed, stHasMoreOutput] at hs
-            · rw [h3] at hs; simp [stBlockBoundary, stHasMoreOutput] at hs
+            · rw [h3.1] at hs; simp [stBlockBoundary, stHasMoreOutput] at hs
         · rw [h.1] at hs; simp [stAdler32Mismatch, stHasMoreOutput] at hs
       omega
     · intro hs
@@ -118,7 +118,7 @@ theorem decompress_facts (r : Regs) (inp out : Array UInt8) (outPos budget flags
         · exact h3.2
         · rw [h3.1] at hst; simp [stDone, stNeedsMoreInput, stFailedCannotMakeProgress] at hst
         · rw [h3.1] at hst; simp [stFailed, stNeedsMoreInput, stFailedCannotMakeProgress] at hst
-        · rw [h3] at hst; simp [stBlockBoundary, stNeedsMoreInput, stFailedCannotMakeProgress] at hst
+        · rw [h3.1] at hst; simp [stBlockBoundary, stNeedsMoreInput, stFailedCannotMakeProgress] at hst
       have : exitUndo st c = 0 := by
         unfold exitUndo
         rcases hst with h | h <;> simp [h]
